@@ -4,17 +4,20 @@ CHECK = dict(
     level="exploration",
     level_text="Generated-input search (rapid): histories of list versions, host lookups and refreshes through hashprefix.Filter.FilterRequest/Refresh with the result cache on; histories of list versions, prefix queries and resets through hashprefix.Matcher/Storage; and TXT questions through the preservice middleware over the real matcher. Every verdict is compared with an independent model: a Go set of the listed names (SHA-256 computed by the harness) and a harness-owned public-suffix table. Held on N generated cases is evidence, not proof.",
     level_note="Trusts crypto/sha256, miekg/dns and that the harness suffix table (com, co.uk, pvt.k12.ma.us, github.io private, test unlisted) agrees with the public-suffix data the repository is built with (self-checked at start and per lookup; a disagreement is inconclusive). 'Up to four labels' is read as in DESIGN.md: tails of the host's last four labels that are longer than the public suffix. Names between the ICANN suffix and the complete (private/default-rule) suffix are accepted either way.",
-    technique="property-based testing (rapid): stateful histories vs an independent SHA-256 set model and an own public-suffix table",
+    technique="property-based testing (rapid): stateful histories vs an independent SHA-256 set model and an own public-suffix table; sampled concurrent resets vs a one-version-only oracle (also under -race)",
     assumptions=[
         "crypto/sha256 and the miekg/dns data structures are trusted; no SHA-256 collisions among generated names",
         "hosts reach the filter lowercased and without a trailing dot, list entries are lowercased names one per line ('#' in column one is a comment), as the callers and the Reset contract state",
         "the suffixes given to the Matcher are not suffixes of one another (as in cmd: .sb.dns.adguard.com and .pc.dns.adguard.com)",
+        "the concurrent part samples real goroutine schedules: generation is seeded, the interleavings are not; it is bounded by iteration counts and no timing decides a verdict",
         "a legacy eight-character label whose ignored tail is not hexadecimal may be refused or served (the statement does not say)",
     ],
     units=[
         dict(name="hashprefix", dir=F + "hashprefix", src="C11/hashprefix", runs=[
             dict(name="filter", run="^TestVerifC11Filter$", quick=8000, thorough=480000, shards_thorough=8),
             dict(name="matcher", run="^TestVerifC11Matcher$", quick=6000, thorough=400000, shards_thorough=4),
+            dict(name="concurrent", run="^TestVerifC11Concurrent$", quick=150, thorough=3000, shards_thorough=3),
+            dict(name="concurrent-race", run="^TestVerifC11Concurrent$", quick=25, thorough=200, race=True),
         ]),
         dict(name="preservice", dir="internal/dnssvc/internal/preservice", src="C11/preservice", runs=[
             dict(name="txt", run="^TestVerifC11Preservice$", quick=6000, thorough=300000, shards_thorough=4),
